@@ -1,0 +1,21 @@
+//go:build verif
+
+package token
+
+// Contracts for the deductive verifier in /verif (comment-only file, build tag verif).
+
+//@ func Token.SetStart
+//@   requires t != nil
+//@   requires 0 <= inputPosition && inputPosition < 4294967296
+//@   ensures t.Literal.Start == inputPosition
+//@   ensures t.TextPosition.LineStart == textPosition.LineStart && t.TextPosition.CharStart == textPosition.CharStart
+//@   modifies t.Literal.Start, t.TextPosition.LineStart, t.TextPosition.CharStart
+//@   safety nil
+
+//@ func Token.SetEnd
+//@   requires t != nil
+//@   requires 0 <= inputPosition && inputPosition < 4294967296
+//@   ensures t.Literal.End == inputPosition
+//@   ensures t.TextPosition.LineEnd == textPosition.LineStart && t.TextPosition.CharEnd == textPosition.CharStart
+//@   modifies t.Literal.End, t.TextPosition.LineEnd, t.TextPosition.CharEnd
+//@   safety nil
